@@ -242,7 +242,9 @@ def run(chk, replay=None):
     ndis = 0
     for i, (kind, ln, mln, what) in enumerate(cases):
         a = cpp[i] if i < len(cpp) else "skipped"
-        chk.seen(ln)
+        # non-trivial: a malformed (mutated / random) input that is not empty or blank
+        payload = L.unhx(ln.split()[-1])
+        chk.seen(ln, nontrivial=bool(L.trim(payload)) and "well-formed" not in what)
         chk.count("input:" + what.split("+")[0])
         oc = L.outcome_class(a)
         chk.count("cpp:" + (a.split()[1] if a.startswith("exc") else oc))
@@ -301,8 +303,9 @@ def run(chk, replay=None):
         checker_cmd="lake build Vita.C10.Props c10_driver && lake env lean <#print axioms for every theorem>",
         rule="mutated well-formed tables (14 CSV mutations, 10 XML mutations, up to 3 stacked), random byte strings, "
              "random reading parameters (delimiter incl. sniffing and odd bytes, header -1/0/1, output index in and "
-             "out of range, trim, filter); distinct = distinct request lines; each is run under ASan+UBSan+LSan "
-             "with NDEBUG and compared with the model's outcome class and, when ok, the whole dataframe",
+             "out of range, trim, filter); each is run under ASan+UBSan+LSan with NDEBUG and compared with the "
+             "model's outcome class and, when ok, the whole dataframe; distinct_nontrivial = distinct request "
+             "lines whose input is mutated / random and not blank",
         trusted=["Lean 4.33 kernel", "hand-written model Vita/C09/{Csv,Model}.lean (tied by the differential run)",
                  "harness/c09_read.cc + checks/c10.py", "g++ 12 ASan/UBSan/LSan as the detector of out-of-bounds "
                  "accesses, leaks and UB inside libstdc++/tinyxml2 (not modelled)",
